@@ -56,6 +56,25 @@ impl St {
   { unimplemented!() }
 }
 
+impl St {
+  /// no-op inserted by rule R3b before every write to a header field: the header is only writable if the arena is
+  pub fn touch_hdr(&self)
+    requires self@.writable, // [C09]
+  {}
+}
+
+/// `panic!` / failed `assert!` (rule R19): unreachable unless a contract says the panic is documented behaviour
+#[verifier::external_body]
+pub fn rt_panic()
+  requires false, // [C04 C09]
+  ensures false,
+{ panic!() }
+/// documented panic (only used by the `*__ro` instantiations): never returns
+#[verifier::external_body]
+pub fn rt_panic_documented()
+  ensures false,
+{ panic!() }
+
 pub struct Arena {
   pub ptr: *mut u8, pub cap: u32, pub data_offset: u32, pub ro: bool, pub freelist: Freelist,
   pub max_retries: u8, pub reserved: usize, pub page_size: u32,
